@@ -4399,6 +4399,13 @@ class TLSConnection(TLSRecordLayer):
                     # groups that we support
                     supported = clientHello.getExtension(ExtensionType
                                                          .supported_groups)
+                    # with psk_ke the extension is not mandatory, but then
+                    # we can't ask for a different key share
+                    if not supported:
+                        for result in self._sendError(
+                                AlertDescription.missing_extension,
+                                "Missing supported_groups extension"):
+                            yield result
                     supported_ids = supported.groups
                     selected_group = next((i for i in acceptable_ids
                                            if i in supported_ids), None)
